@@ -495,6 +495,8 @@ impl PropReport {
         }
     }
     pub fn push(&mut self, s: SubReport) {
+        // the calling thread is between sub-checks: it is not executing any case
+        crate::supervise::journal_clear();
         self.subs.push(s);
     }
     pub fn violations(&self) -> Vec<&Violation> {
